@@ -113,6 +113,11 @@ func (t *Tokenizer) Load(r io.Reader, handler oj.TokenHandler) (err error) {
 	}()
 	var cnt int
 	cnt, err = r.Read(buf)
+	for err == nil && 0 < cnt && cnt < 4 && buf[0] == 0xEF { // a BOM has to be seen whole
+		var n int
+		n, err = r.Read(buf[cnt:])
+		cnt += n
+	}
 	buf = buf[:cnt]
 	t.mode = valueMap
 	if err != nil {
